@@ -12,3 +12,10 @@ check(
     "delay1=1, use_all_past=False (as the property says). Array model of vf/sxl.py (slice clamping, assignment shape rule) trusted, cross-checked concretely against the real code per configuration. Reals not floats in ts_mape.",
     "DESIGN.md 3.C20",
 )
+check(
+    "C12",
+    "bounded symbolic execution (SX, z3 LRA) of the real digitize2tree and tree_structure utilities over symbolic bins / thresholds / query points, scikit-learn's Tree replaced by a validated node-table model",
+    "digitize2tree runs on symbolic strictly monotonic bins (length <=8/16, both directions) and a symbolic x: on every root-to-leaf path z3 shows the leaf value equals numpy.digitize(x,bins,right=True). The structure utilities run on every tree shape with <=3/4 splits x feature assignments with symbolic thresholds: x in box(tree_node_range(leaf)) <=> apply(x)=leaf, predict_leaves = apply (also after the same estimator object is refitted), tree_leave_index = childless nodes.",
+    "Tree/tree_add_node/DecisionTreeRegressor are a node-table model (left iff x<=threshold), validated every run against the compiled extension and the real sklearn Tree. Inputs representable in float32. Bounded in bins length and tree size.",
+    "DESIGN.md 3.C12",
+)
